@@ -409,6 +409,7 @@ def run(R):
             "status-class": "a ControlResponse status outside {200, 4xx, 5xx}",
             "dataset": "a status dataset does not list exactly the table contents",
             "dataset-unanswered": "a status dataset request is not answered at all",
+            "cs-effect": "after an accepted cs/config the Content Store does not obey the configured capacity (it holds a different number of entries than min(stored, capacity))",
             "wire-numbers": "a ControlParameters / ControlResponse encoded with the NFD management protocol's TLV numbers is read differently by the repository's codec",
             "fib-lookup": "a next-hop lookup (FindNextHopsEnc) of a FIB entry's own name does not return the next hops the table and fib/list report",
             "fib-after-rib": "after an accepted RIB change (register/unregister/face removal) the FIB does not hold the flattened next hops of the new RIB",
